@@ -1802,10 +1802,19 @@ pub(crate) fn word_is_multiline(word: &Word) -> bool {
                 || (mac.func.value.lines.iter())
                     .any(|item| item.words_or(true, words_are_multiline))
         }
-        Word::Pack(pack) => pack.branches.iter().any(|br| {
-            br.value.lines.len() > 1
-                || (br.value.lines.iter()).any(|item| item.words_or(true, words_are_multiline))
-        }),
+        Word::Pack(pack) => {
+            // Branches that start on different lines are put on different lines
+            (pack.branches.windows(2)).any(|brs| brs[0].span.start.line != brs[1].span.start.line)
+                || pack.branches.iter().any(|br| {
+                    // The empty lines at the start of a branch are dropped
+                    let mut lines = br.value.lines.as_slice();
+                    while lines.first().is_some_and(Item::is_empty_line) {
+                        lines = &lines[1..];
+                    }
+                    lines.len() > 1
+                        || lines.iter().any(|item| item.words_or(true, words_are_multiline))
+                })
+        }
         Word::Primitive(_) => false,
         Word::Modified(m) => {
             m.operands.iter().any(|word| word_is_multiline(&word.value))
